@@ -231,20 +231,25 @@ Proof.
   lia.
 Qed.
 
-(* EqualType always returns: for every environment and every pair of types *)
-Theorem eq_ty_terminates D s t :
-  exists b M, eq_ty (eq_fuel D s t) D (S (tsize s + tsize t)) s t [] = Ok (b, M).
+(* EqualType always returns: for every environment and every pair of types, with any outer fuel
+   from eq_fuel upwards *)
+Theorem eq_ty_terminates_ge D s t K : eq_fuel D s t <= K ->
+  exists b M, eq_ty K D (S (tsize s + tsize t)) s t [] = Ok (b, M).
 Proof.
-  pose (U := universe D s t).
-  destruct (eq_ty_total D U (universe_child D s t) (universe_exp D s t) (eq_fuel D s t) (S (tsize s + tsize t)) s t [])
+  intros HK. pose (U := universe D s t).
+  destruct (eq_ty_total D U (universe_child D s t) (universe_exp D s t) K (S (tsize s + tsize t)) s t [])
     as (b & M & E & _).
   - apply in_or_app. left. apply subterms_self.
   - apply in_or_app. right. apply in_or_app. left. apply subterms_self.
   - split; [constructor | intros k []].
-  - cbn [length]. rewrite Nat.sub_0_r, N_eq. unfold eq_fuel.
+  - cbn [length]. rewrite Nat.sub_0_r, N_eq. unfold eq_fuel in HK.
     pose proof (universe_length D s t) as Hl. fold U in Hl.
     assert (length U * length U <= S (env_size D + tsize s + tsize t) * S (env_size D + tsize s + tsize t)) by (apply Nat.mul_le_mono; lia).
     lia.
   - lia.
   - eauto.
 Qed.
+
+Theorem eq_ty_terminates D s t :
+  exists b M, eq_ty (eq_fuel D s t) D (S (tsize s + tsize t)) s t [] = Ok (b, M).
+Proof. apply eq_ty_terminates_ge. apply le_n. Qed.
